@@ -94,6 +94,17 @@ Proof.
   - rewrite H. split; [intros (E & _); discriminate|discriminate].
 Qed.
 
+(* 2D parity: only k and the (wrapping) total are tested here; the shape test is the matrix construction's (Pchk2D.create2d) *)
+Theorem p2d_prefix_is_limits : forall k r L, is_u32 k -> is_u32 r ->
+  p2d_prefix k c_p2d_max_k r c_p2d_max_n L = Some ((k <=? c_p2d_max_k) && (u32 (k + r) <=? c_p2d_max_n)).
+Proof.
+  intros k r L Hk Hr. unfold is_u32 in *. unfold p2d_prefix, bind, c_p2d_max_k, c_p2d_max_n, u32, wrapu32, wrapu.
+  rewrite !Z.gtb_ltb.
+  destruct (Z.ltb_spec 16 k); destruct (Z.leb_spec k 16); try lia; cbn [andb]; [reflexivity|].
+  destruct (Z.ltb_spec 24 ((k + r) mod 2 ^ 32)); destruct (Z.leb_spec ((k + r) mod 2 ^ 32) 24); try lia; reflexivity.
+Qed.
+
 Print Assumptions rs28_prefix_is_accept.
 Print Assumptions rs2m_prefix_is_accept.
 Print Assumptions ldpc_checks_pass_iff_accept.
+Print Assumptions p2d_prefix_is_limits.
